@@ -151,6 +151,7 @@ type Run struct {
 	index    *os.File
 	distinct map[string]struct{}
 	perShard int
+	bufBytes int
 	sampleBy map[string]int
 }
 
@@ -211,7 +212,10 @@ func (r *Run) Case(family, coqTerm string, desc any) {
 	line, _ := json.Marshal(map[string]any{"id": id, "family": family, "desc": desc})
 	r.index.Write(append(line, '\n'))
 	r.Sum.ModelCases++
-	if len(r.buf) >= r.perShard {
+	r.bufBytes += len(coqTerm)
+	// (a shard of a hundred large bodies is one term of a hundred thousand characters: coqc's
+	// stack does not survive it — cut by size as well as by count)
+	if len(r.buf) >= r.perShard || r.bufBytes > 60000 {
 		r.flush()
 	}
 }
@@ -221,6 +225,7 @@ func (r *Run) flush() {
 		return
 	}
 	r.shard++
+	r.bufBytes = 0
 	name := fmt.Sprintf("cases_%s_%03d.v", r.Prop, r.shard)
 	var sb strings.Builder
 	sb.WriteString("From Coq Require Import List NArith ZArith.\nFrom Coq.Strings Require Import Byte.\n")
